@@ -249,6 +249,8 @@ enum TOp {
     MUnsplit,
     /// Vec::from(BytesMut half): takes the whole buffer over when the half is the last handle, copies otherwise
     MIntoVec,
+    /// split_to(1) on a half that is already in the shared form: one more reference, taken through `&mut self`
+    MSplit,
 }
 #[derive(Clone, Copy, Debug, PartialEq, Eq)]
 enum MainMode {
@@ -553,6 +555,26 @@ fn run_thread(tid: usize, ops: &[TOp], mut own: Vec<Hd>, mut muts: Vec<(BytesMut
                     drop(v);
                 }
             }
+            TOp::MSplit => {
+                if let Some((mut m, mut expect)) = muts.pop() {
+                    if m.len() >= 2 {
+                        ctx.ghost_read(m.as_ptr() as usize, m.len());
+                        let p = m.as_ptr() as usize;
+                        let head = m.split_to(1);
+                        let rest_expect = expect.split_off(1);
+                        if head.as_ptr() as usize != p || m.as_ptr() as usize != p + 1 {
+                            panic!("C05,C07: split_to(1) of a BytesMut half moved the bytes");
+                        }
+                        if &head[..] != &expect[..] || &m[..] != &rest_expect[..] {
+                            panic!("C05,C01,C04: split_to(1) of a BytesMut half reads {:02x?} / {:02x?}, want {:02x?} / {:02x?}", &head[..], &m[..], expect, rest_expect);
+                        }
+                        muts.push((head, expect));
+                        muts.push((m, rest_expect));
+                    } else {
+                        muts.push((m, expect));
+                    }
+                }
+            }
             TOp::MFreeze => {
                 if let Some((m, expect)) = muts.pop() {
                     ctx.ghost_read(m.as_ptr() as usize, m.len());
@@ -810,7 +832,7 @@ fn seqs(alpha: &[TOp], max_len: usize, first: &[TOp]) -> Vec<Vec<TOp>> {
 fn family(set: &str) -> Vec<Program> {
     let core = [TOp::CloneRef, TOp::IsUniqueRef, TOp::Drop, TOp::TryIntoMut, TOp::IntoMut, TOp::IntoVec];
     let full = [TOp::CloneRef, TOp::IsUniqueRef, TOp::CloneOwn, TOp::Read, TOp::Slice, TOp::Drop, TOp::TryIntoMut, TOp::IntoMut, TOp::IntoVec];
-    let mcore = [TOp::MWrite, TOp::MReserve, TOp::MTryReclaim, TOp::MGrow, TOp::MFreeze, TOp::MIntoVec, TOp::Drop];
+    let mcore = [TOp::MWrite, TOp::MReserve, TOp::MTryReclaim, TOp::MGrow, TOp::MFreeze, TOp::MIntoVec, TOp::MSplit, TOp::Drop];
     let mut out = vec![];
     let (alpha, k, mains): (&[TOp], usize, &[MainMode]) = match set {
         "quick" => (&core, 2, &[MainMode::Keep, MainMode::DropEarly]),
